@@ -80,12 +80,24 @@ def _facts(c, out):
             out.append(T.add(T.const(1), l))
 
 
-def implies_nonneg(goal, pc, extra_facts=()):
+def implies_nonneg(goal, pc, extra_facts=(), _depth=0):
     """does the path condition imply goal >= 0 ?   goal >= 0 holds if goal + sum(k_i * f_i) is a non-negative
     form for some facts f_i <= 0 (k_i in {0,1,2}) -- then goal >= -sum(..) >= 0."""
     goal = T.as_lin(goal)
     goals = lower_variants(goal)      # proving any g <= goal non-negative suffices
     facts = facts_from_pc(pc) + list(extra_facts)
+    if _depth == 0:
+        # integer division by a constant c >= 2:  a / c <= a, and a / c <= a - 1 as soon as a >= 1
+        divs = set()
+        for t in [goal] + list(pc):
+            for x in T.subterms(t):
+                if isinstance(x, tuple) and x and x[0] == 'div' and T.is_const(T.as_lin(x[2])) and T.as_lin(x[2])[1] >= 2:
+                    divs.add(x)
+        for dv in divs:
+            a = T.as_lin(dv[1])
+            facts.append(T.sub(T.root(dv), a))
+            if implies_nonneg(T.sub(a, T.const(1)), pc, (), 1):
+                facts.append(T.add(T.sub(T.root(dv), a), T.const(1)))
     for g in goals:
         if nonneg(g):
             return 'non-negative form'
